@@ -3,6 +3,7 @@ import WnVerif.Drv.DocJson
 import WnVerif.Model.Add
 import WnVerif.Model.Remove
 import WnVerif.Model.Api
+import WnVerif.Model.Morphy
 open Lean
 namespace WnVerif.Drv
 open WnVerif.Db WnVerif.Doc
@@ -173,6 +174,34 @@ def stepStore (env : Env) (op : Json) (defaultRank : Nat) : Env × Json :=
       | some w => jObj [("S", jStrs (w.lexids.map (lexSpec env.db))), ("E", jStrs (w.expids.map (lexSpec env.db))),
                         ("missing", jStrs w.missing), ("scope", obsScopeX env w)]
       | none => jStr "error")
+  | "find" =>
+    (env, match mkWordnet env.db (optStr op "lexicon") (optStr op "lang") (some "")
+            (getBool op "normalizer" true) (getBool op "all_forms" true) with
+      | none => jStr "error"
+      | some w =>
+        let db := env.db
+        let morphyWords : List Morphy.Word := (words db w env.norm none none none).map fun x =>
+          { pos := x.pos, forms := x.forms.map (·.form.toList) }
+        let ofMorphy (init : Option (List Morphy.Word)) : String → Option String → LemResult := fun f p =>
+          let r := Morphy.call init f.toList p
+          (dedupBy id (r.map (·.1))).map fun k => (k, (Morphy.resultFor r k).map String.ofList)
+        let lem : Option (String → Option String → LemResult) :=
+          match op.getObjVal? "lemmatizer" with
+          | .ok (.str "morphy") => some (ofMorphy none)
+          | .ok (.str "morphy_init") => some (ofMorphy (some morphyWords))
+          | .ok (.obj kvs) => some (fun f _ =>
+              match (kvs.toList.find? (fun e => e.1 == f)) with
+              | some (_, v) => (asList v).map fun e =>
+                  match asList e with
+                  | [p, fs] => ((match p with | .str s => some s | _ => none), strList fs)
+                  | _ => (none, [])
+              | none => [])
+          | _ => none
+        let form := optStr op "form"
+        let pos := optStr op "pos"
+        jObj [("words", jArr ((words db w env.norm lem form pos).map (jWordRef db))),
+              ("senses", jArr ((senses db w env.norm lem form pos).map (jSenseRef db))),
+              ("synsets", jArr ((synsets db w env.norm lem form pos none).map fun y => jArr [jStr (lexSpec db y.lex), jStr y.id]))])
   | "lexicons" =>
     (env, match mkWordnet env.db (optStr op "lexicon") (optStr op "lang") none with
       | some w => jStrs (w.lexids.map (lexSpec env.db))
